@@ -51,6 +51,7 @@ def run(ctx):
     ctx.rule("E2", "provenance of TextEncoding operands: field or parameter, never a literal")
     ctx.rule("E3", "who-may-count string units; TextEncoding::width has one arm per variant using the matching primitive")
     ctx.rule("E4", "unit consistency in the text-diff hooks: an accumulator (field of the hook or local) that receives a TextEncoding::width-derived addend anywhere receives only width-derived addends (no grapheme counts, no literal 1 for a block)")
+    ctx.rule("E6", "patch lengths: the length of every PatchLog::delete_seq is a width in the document's encoding, or the literal 1 at a site that only handles list elements (reviewed)")
     ctx.rule("E5", "the text-diff hooks never delete a single element (TransactionInner::delete); every delete count handed to splice_text is the constant 0 or width-derived")
     f = ctx.facts()
     a = f.adts.get(TE)
@@ -249,3 +250,107 @@ def check_units(ctx, f):
                 ctx.ob("E5", "%s|splice_text delete count|%d" % (norm_fn(p).split("::")[-1], n_spl), ok, t["sp"], "0 or a width" if ok else
                        "the number of units deleted is not a width in the document's encoding")
     ctx.floor("splice_text calls in the text-diff hooks", n_spl, 8)
+    check_platform_default(ctx, f)
+    check_untangler_index(ctx, f)
+    check_delete_lengths(ctx, f)
+
+
+def check_platform_default(ctx, f):
+    """TextEncoding::platform_default() is the one place a literal encoding is made (E1); calling it anywhere but where a *new* document
+    or the default load options are created hardcodes an encoding just the same"""
+    from .. import callgraph
+    cg = callgraph.get(f)
+    ALLOWED_CALLERS = {"automerge::automerge::Automerge::new", "<automerge::automerge::LoadOptions as core::default::Default>::default",
+                       "<automerge::types::TextEncoding as core::default::Default>::default", "automerge::autocommit::AutoCommit::new"}
+    pd = [p for p in f.fns if norm_fn(p).endswith("TextEncoding::platform_default") or p.endswith("::platform_default")]
+    if not pd:
+        raise facts.AnchorMissing("TextEncoding::platform_default")
+    callers = {norm_fn(c).split("::{closure")[0] for p in pd for c in cg.inn.get(p, ()) if not c.startswith("bin:")}
+    callers = {c for c in callers if f.fns.get(c, {}).get("ckey", ("automerge", "lib")) == ("automerge", "lib") or c.startswith(("automerge::", "<automerge::"))}
+    extra = sorted(c for c in callers if c not in ALLOWED_CALLERS and not c.startswith("<automerge::automerge::LoadOptions"))
+    ctx.ob("E1", "TextEncoding::platform_default|callers", not extra, f.fns[pd[0]]["sp"], "called only where a new document / default load options are created (%d caller(s))" % len(callers) if not extra else
+           "%s measures or creates text with the platform's default encoding instead of the document's" % extra)
+
+
+def check_untangler_index(ctx, f):
+    """the patch index of a merged change advances by widths in a text object; a literal step is right only for a list"""
+    UT = "automerge::op_set2::change::batch::Untangler::untangle_inner"
+    cand = [p for p in f.fns if norm_fn(p) == UT]
+    if len(cand) != 1:
+        raise facts.AnchorMissing(UT)
+    b = cfg.body(f.fns[cand[0]])
+    ctx.analysed_fns.add(cand[0])
+    from .C03 import paggs_of
+    list_edges = []
+    for sb, sw in b.switches():
+        src = b.bool_operand_source(sw["op"])
+        if src and src["kind"] == "call" and (norm_fn(src.get("decl") or src["callee"]) or "").endswith("PartialEq::eq"):
+            t = src["t"]
+            if any(("automerge::types::SequenceType", "List") in paggs_of(b, a) for a in t["args"]):
+                zero = [tb for v, tb in sw["targets"] if v == "0"]
+                list_edges += [(sb, zero[0])] if src["negated"] and zero else ([] if src["negated"] else [(sb, sw["otherwise"])])
+    ctx.floor("tests seq_type == List in Untangler::untangle_inner", len(list_edges), 1)
+    n = 0
+    for bi, blk in enumerate(b.blocks):
+        if blk.get("cleanup"):
+            continue
+        for st in blk["st"]:
+            rv = st["rv"]
+            if rv["k"] == "Bin" and rv["op"] in ("Add", "AddWithOverflow"):
+                keys = [b.origin(pl["l"], tuple(pl["p"])) for pl in [(o.get("c") or o.get("m")) for o in rv["o"]] if pl]
+                if not any(o[0] == 1 and [e for e in o[1] if e.startswith(".")] == [".index"] for o in keys):
+                    continue
+                lit = [util.op_const(o) for o in rv["o"] if util.op_const(o) is not None]
+                n += 1
+                if not lit:
+                    ctx.ob("E4", "Untangler::untangle_inner|index step|%d" % n, True, st["sp"], "a computed width", nontrivial=False)
+                    continue
+                ok = b.edges_dominate(list_edges, bi)
+                ctx.ob("E4", "Untangler::untangle_inner|index step|%d" % n, ok, st["sp"], "literal step only for a list" if ok else
+                       "the patch index advances by a literal %s outside the list case: in a text object an element (a block marker in UTF-8, a multi-unit character) is wider than one unit, so later patch positions are short" % lit[0].get("v"))
+    ctx.floor("index steps in Untangler::untangle_inner", n, 2)
+
+
+# delete_seq(.., 1) sites that only ever see list elements (one element = one index unit), with the reason
+LITERAL_DELETES = {
+    "automerge::iter::list_range::ListDiffItem::log": "diff of a list object (ListRange is not used for text)",
+    "automerge::op_set2::change::batch::ValueState::list_flush": "the list branch of list_flush (edge-dominated by seq_type == List, checked)",
+    "automerge::transaction::inner::TransactionInner::finalize_op": "a local delete op of a list element; deletions in text objects go through inner_splice, which logs widths",
+}
+
+
+def check_delete_lengths(ctx, f):
+    W = width_fns(f)
+    from .C03 import paggs_of
+    n = 0
+    for p, r in sorted(f.fns.items()):
+        if r["ckey"] != ("automerge", "lib"):
+            continue
+        sites = [(bi, t) for bi, t in f.calls(r) if (callee(t) or "").endswith("PatchLog::delete_seq")]
+        if not sites:
+            continue
+        b = cfg.body(r)
+        ctx.analysed_fns.add(p)
+        owner = norm_fn(p).split("::{closure")[0]
+        for k, (bi, t) in util.ordinal_keys(sites, lambda it: "%s|delete_seq length" % owner):
+            n += 1
+            a = t["args"][3]
+            c = util.op_const(a)
+            if c is None:
+                ok = width_derived(f, b, a, W) or any((norm_fn(x) or "").split("::")[-1] in ("width", "diff_width") for x in b.provenance(a, through_calls=True).callees()) or bool(b.provenance(a, through_calls=True).params)
+                ctx.ob("E6", k, ok, t["sp"], "a width (or a length handed in by the caller)" if ok else "the length of the deletion is neither a width in the document's encoding nor the caller's")
+                continue
+            if owner in LITERAL_DELETES:
+                ok = True
+                if owner.endswith("ValueState::list_flush"):
+                    edges = []
+                    for sb, sw in b.switches():
+                        src = b.bool_operand_source(sw["op"])
+                        if src and src["kind"] == "call" and (norm_fn(src.get("decl") or src["callee"]) or "").endswith("PartialEq::eq") and any(("automerge::types::SequenceType", "List") in paggs_of(b, x) for x in src["t"]["args"]):
+                            zero = [tb for v, tb in sw["targets"] if v == "0"]
+                            edges += [(sb, zero[0])] if src["negated"] and zero else ([] if src["negated"] else [(sb, sw["otherwise"])])
+                    ok = bool(edges) and b.edges_dominate(edges, bi)
+                ctx.ob("E6", k, ok, t["sp"], "reviewed: " + LITERAL_DELETES[owner], via="table:" + LITERAL_DELETES[owner])
+            else:
+                ctx.ob("E6", k, False, t["sp"], "a deletion of literal length %s is logged where text objects are handled: an element wider than one unit (a block marker in UTF-8, a multi-unit character) leaves its tail in a materialized view" % c.get("v"))
+    ctx.floor("PatchLog::delete_seq call sites", n, 8)
